@@ -36,7 +36,8 @@ class A(Plain):
 
 
 class B(A):
-    pass
+    def __bool__(self):     # legal components may be falsy
+        return False
 
 
 class X(Plain):
